@@ -18,7 +18,7 @@ RULE = ('all basic index expressions over the alphabet {int, negative int, numpy
         'every axis, zeros/ones(-like); D in {1,2,3}, P in {1,2,3}, values real/complex/non-finite (exact comparison); '
         'a class = (op, argument class, D, P, value kind); non-trivial = result has >= 1 element or the op moves data')
 ASSUMPTIONS = ['NumPy applied to each (d,p) coefficient slice is the specification', 'data movement is compared bit-exactly (NaN == NaN)']
-REQUIRED = ['getitem', 'getitem:view', 'setitem:utpm', 'setitem:bcast', 'setitem:ndarray', 'setitem:scalar', 'writethrough', 'reshape', 'transpose',
+REQUIRED = ['getitem', 'getitem:view', 'setitem:utpm', 'setitem:bcast', 'setitem:ndarray', 'setitem:scalar', 'setitem:alias', 'writethrough', 'reshape', 'transpose',
             'transpose:view', 'sum', 'tile', 'diag', 'triu', 'tril', 'trace', 'symvec', 'vecsym', 'neg', 'conjugate', 'real', 'imag', 'fft', 'ifft',
             'zeros', 'ones', 'zeros_like', 'ones_like']
 
@@ -151,7 +151,7 @@ def _index(ctx, p, rng):
             continue
         icls = _idx_class(idx)
         data = _vals(rng, (D, P) + shape, vk)
-        x = UTPM(data.copy())
+        x = UTPM(gen.relayout(data, gen.LAYOUTS[int(rng.integers(5))]))
         plain = np.zeros(shape)
         # ---- getitem: values, view-ness
         try:
@@ -183,9 +183,28 @@ def _index(ctx, p, rng):
                 ctx.violation('writethrough:raises:%s' % icls, {'index': _fmt(idx), 'shape': shape, 'error': repr(e)[:160]}); continue
         # ---- setitem with the four right-hand-side kinds
         tshape = plain[idx].shape
-        for rk in ('utpm', 'bcast', 'ndarray', 'scalar'):
-            x = UTPM(data.copy())
+        for rk in ('utpm', 'bcast', 'ndarray', 'scalar', 'alias'):
+            x = UTPM(gen.relayout(data, gen.LAYOUTS[int(rng.integers(5))]))
             model = data.copy()
+            if rk == 'alias':
+                # right-hand side is a view of the container's own zeroth coefficient (NumPy assignment is overlap-safe)
+                if len(tshape) == 0 or vk == 'complex':
+                    continue
+                view = x.data[0, 0][idx]
+                if view.shape[0] > 1 and rng.random() < 0.5:
+                    view = view[::-1]                     # overlapping, permuted
+                w = view.copy(); rhs = view
+                for d in range(D):
+                    for pp in range(P):
+                        model[d, pp][idx] = w if d == 0 else 0
+                try:
+                    x[idx] = rhs
+                except Exception as e:
+                    ctx.violation('setitem:alias:raises:%s' % icls, {'index': _fmt(idx), 'shape': shape, 'error': repr(e)[:160]}); continue
+                if not _eq(x.data, model):
+                    ctx.violation('setitem:alias:value:%s' % icls, {'index': _fmt(idx), 'shape': shape, 'D': D, 'P': P}); continue
+                ctx.ok('setitem:alias', ('set', rk, rank, _fmt(idx), D, P, vk))
+                continue
             if rk == 'utpm':
                 w = _vals(rng, (D, P) + tshape, vk); rhs = UTPM(w.copy())
             elif rk == 'bcast':
